@@ -1,7 +1,7 @@
 """C18 Trace context follows the request, and only that request — E-PROV."""
 from engine.facts import CannotDecide, callee_is, path_matches
 from engine import cfg
-from .common import Table, client_dispatch_poll, reachable_local_fns, norm_path, message_send_sites
+from .common import MAP_REMOVALS, Table, client_dispatch_poll, reachable_local_fns, norm_path, message_send_sites
 
 EXTRA_CONFIGS = ('default', 'tokio1', 'serde1', 'serde-transport')   # feature configurations re-analysed in the thorough tier
 META = {
@@ -170,7 +170,7 @@ def run(ctx):
     for g, sbb, s, agg in csends:
         tcr = P.root(P._field(agg, 'trace_context'))
         idr = P.root(P._field(agg, 'request_id'))
-        ok = bool(tcr) and all(P.is_call(r, 'HashMap::remove', 'HashMap::remove_entry') and P.fpath(p)[-1:] == (ctx_tc,) for r, p in tcr)
+        ok = bool(tcr) and all(P.is_call(r, *MAP_REMOVALS) and P.fpath(p)[-1:] == (ctx_tc,) for r, p in tcr)
         # the removal that produced the context is keyed by the id put in the message
         key_ok = False
         for r, p in tcr:
